@@ -305,7 +305,8 @@ def run(ctx):
     env = vlib.scrub_env(scratch=scratch)
     nsh = 16
     if tier == "quick":
-        plans = [("L1,L4,L5,L6", "env", "sse,avx,mmx")]
+        # "minimal": sse under SSE2 / +SSE3 / +SSSE3 and mmx under MMX+MMXEXT / +SSSE3 - the fall-back rules of every opcode
+        plans = [("L1,L4,L5,L6", "env", "sse,avx,mmx"), ("L1,L4,L6", "minimal", "sse,mmx")]
     else:
         plans = [("L1,L2,L3,L4,L5,L6", "env", "sse,avx,mmx"), ("L1,L4,L6", "lattice", "sse,avx,mmx")]
     res = vlib.Results()
